@@ -19,14 +19,15 @@ import (
 )
 
 type Replay struct {
-	Kind     string `json:"kind"` // tables | compile | self | one | all | lql | lqlself | rel
-	List     int    `json:"list,omitempty"`
-	K        int    `json:"k,omitempty"`
-	Format   string `json:"format,omitempty"`
-	Civil    *Civil `json:"civil,omitempty"`
-	Text     string `json:"text,omitempty"`
-	Trailing string `json:"trailing,omitempty"`
-	Exact    bool   `json:"exact,omitempty"`
+	Kind     string     `json:"kind"` // tables | compile | self | one | all | lql | lqlself | rel
+	List     int        `json:"list,omitempty"`
+	K        int        `json:"k,omitempty"`
+	Format   string     `json:"format,omitempty"`
+	Civil    *Civil     `json:"civil,omitempty"`
+	Text     string     `json:"text,omitempty"`
+	Trailing string     `json:"trailing,omitempty"`
+	Exact    bool       `json:"exact,omitempty"`
+	Lines    []FileLine `json:"lines,omitempty"`
 }
 
 var (
@@ -114,7 +115,7 @@ func caseSelf(li, k int, c Civil, trailing string) Case {
 		obs = GSome(GTuple(GNat(j), gInst(tm)))
 	}
 	cs := Case{Coq: GApp("KSelf", GNat(li), GNat(k), gCivil(c), gNow(now), GStr(text), GStr(trailing), obs),
-		Replay: Replay{Kind: "self", List: li, K: k, Civil: &c, Trailing: trailing, Format: f, Text: text},
+		Replay:     Replay{Kind: "self", List: li, K: k, Civil: &c, Trailing: trailing, Format: f, Text: text},
 		NonTrivial: true, Stream: fmt.Sprintf("self-list%d", li), Tags: []string{fmt.Sprintf("fmt%d:%d", li, k)}}
 	if trailing != "" {
 		cs.Tags = append(cs.Tags, "trailing")
@@ -298,7 +299,7 @@ func caseRel(lit string, exact bool, keep *[]relObs) Case {
 		}
 		for _, p := range *keep {
 			// a larger number must denote an earlier (or the same) instant: the durations are obs-to-now distances
-			dLo, dHi := lo-obs, hi-obs       // this literal's duration is in [dLo, dHi]
+			dLo, dHi := lo-obs, hi-obs // this literal's duration is in [dLo, dHi]
 			pLo, pHi := p.lo-p.obs, p.hi-p.obs
 			if num*mult >= p.n && dHi < pLo-slack-1 {
 				cs.Oracle = &Violation{Class: "lql-relative-not-monotone", Detail: fmt.Sprintf("%q: duration <= %d but a smaller literal has >= %d", lit, dHi, pLo)}
@@ -435,7 +436,7 @@ func mutate(r *Rng, s string) string {
 const rule = "every format of the collector list and of the LQL list x >= 20 instants (15 fixed ones covering leap days, year ends, 1- and 2-digit fields, " +
 	"hours 0/11/12/13/23, plus random ones over [1000,2999] with all months and weekdays), half of the collector texts followed by trailing text; single-format " +
 	"parsers incl. user formats outside the lists; a malformed stream (one-edit mutations of valid texts, random strings over the timestamp alphabet); " +
-	"int64 literals; relative literals. A case is non-trivial iff the implementation parsed the text (all self cases are)."
+	"int64 literals; relative literals; files of 12-45 lines through the collector's line parser (dated lines in one clean format of the collector list, runs of 0-25 lines without a date). A case is non-trivial iff the implementation parsed the text (all self cases are)."
 
 func addCorpus(c *Ctx) {
 	// witnesses of the refuted theorems of props/C20.v, replayed on the implementation first
@@ -483,6 +484,12 @@ func run(c *Ctx) error {
 			c.Add(caseLql(rp.Text, true, rp.K, *rp.Civil))
 		case "rel":
 			c.Add(caseRel(rp.Text, rp.Exact, &keep))
+		case "lines":
+			cs, err := caseLines(rp.K, rp.Lines)
+			if err != nil {
+				return err
+			}
+			c.Add(cs)
 		default:
 			return fmt.Errorf("unknown case kind %q", rp.Kind)
 		}
@@ -607,6 +614,35 @@ func run(c *Ctx) error {
 			c.Add(caseRel(fmt.Sprintf("-%d%s", r.PickInt(0, 1, 2, 59, 60, 61, 1440, r.Intn(100000)), unit), true, &keep))
 		} else {
 			c.Add(caseRel(fmt.Sprintf("-%d.%0*d%s", r.Intn(500), r.Range(1, 6), r.Intn(1000), unit), false, &keep))
+		}
+	}
+	// files through the collector's line parser
+	{
+		w := Civil{Y: 2019, Mo: 5, D: 25, H: 15, Mi: 7, S: 9, Abbr: "UTC"}
+		for k, f := range lists[0] {
+			if f == "YYYY-MM-DD HH:mm:ss" { // the witness of C20_line_refuted
+				var ls []FileLine
+				for i := 0; i < 10; i++ {
+					ls = append(ls, FileLine{Text: "  at some.stack.Frame(x)"})
+				}
+				ls = append(ls, FileLine{Dated: true, Civil: &w, Text: "2019-05-25 15:07:09 done"})
+				cs, err := caseLines(k, ls)
+				if err != nil {
+					return err
+				}
+				c.Add(cs)
+			}
+		}
+		for i := 0; i < c.N(60); i++ {
+			k, ls := genLines(r, today())
+			if k < 0 {
+				continue
+			}
+			cs, err := caseLines(k, ls)
+			if err != nil {
+				return err
+			}
+			c.Add(cs)
 		}
 	}
 	c.Note("formats", map[string]int{"collector": len(lists[0]), "lql": len(lists[1]), "terms": len(terms)})
